@@ -208,3 +208,62 @@ Proof.
   split; [exact (proj1 ex_cluster)|]. split; [exact (proj1 (proj2 ex_cluster))|].
   split; [exact (proj1 (proj2 (proj2 (proj2 ex_cluster))))|exact (proj2 (proj2 (proj2 (proj2 ex_cluster))))].
 Qed.
+
+(* ---------------------------------------------------------------------------------------------------------------------------
+   ROUND FIVE (Spec/ValidY.v): RECHARGE STATIONS.  "Every break, reload or recharge stop that appears corresponds to a distinct one
+   defined for that very vehicle shift": the recharge activities of a tour can be assigned to DISTINCT stations of the tour's
+   vehicle shift (same location, duration = reported length, a time window of the station that explains the reported start) - iff
+   the checker says so; a shift without recharges defines no station, so none may appear.  For every other clause the recharge
+   activities are masked in place (`accounted5` = accounted4 on the masked document ++ this rule): "none of these ... ever
+   displaces, duplicates or swallows a customer job" stays the per-job clause above. *)
+From VRP Require Import Spec.ValidY Proofs.ValidYP.
+
+Theorem C02_recharges_distinct_defined : forall Y t, recharges_ok Y t = true <-> RechargesDefined Y t.
+Proof. exact recharges_ok_iff. Qed.
+
+Theorem C02_recharges_checker_sound_complete : forall Y S,
+  recharge_viols Y S = [] <-> forall t, In t (sl_tours S) -> RechargesDefined Y t.
+Proof. exact recharge_viols_nil. Qed.
+
+(* so a tour never visits more recharge stations than its shift defines (each "can be visited only once"), and none at all
+   when the shift defines no recharges *)
+Theorem C02_recharges_at_most_defined : forall Y t, RechargesDefined Y t -> (length (recharge_acts t) <= length (stations_of Y t))%nat.
+Proof. exact recharges_at_most_defined. Qed.
+
+Theorem C02_recharges_none_defined : forall Y t, recharge_of Y t = None -> RechargesDefined Y t -> recharge_acts t = [].
+Proof. exact recharges_none_defined. Qed.
+
+(* conservativity: on a document without recharge activities what runs (`accounted5`) IS the accounting of the earlier rounds,
+   whatever the problem defines *)
+Theorem C02_no_recharge_activity_is_accounted4 : forall Y X XS P S,
+  no_rc_sol S = true -> accounted5 Y X XS P S = accounted4 X XS P S.
+Proof. exact accounted5_no_recharge. Qed.
+
+(* non-vacuity: a document with a recharge stop at a station of its shift passes the WHOLE round-five checker and satisfies the
+   declarative clause; judged against a problem that defines no station the accounting is exactly [ARecharge 0] *)
+Theorem C02_nonvacuous_recharge :
+  all5 (ex_Yrc 30) ex_Prc ex_Src = [] /\ RechargesDefined (ex_Yrc 30) (hd ex_tour (sl_tours ex_Src))
+  /\ recharge_acts (hd ex_tour (sl_tours ex_Src)) <> [] /\ accounted5 Y0 X0 XS0 ex_Prc ex_Src = [ARecharge 0].
+Proof.
+  split; [exact (proj1 ex_recharge)|]. split; [exact (proj1 ex_recharge_declarative)|].
+  split; [exact (proj2 (proj2 (proj2 ex_recharge)))|exact (proj1 (proj2 (proj2 ex_recharge)))].
+Qed.
+
+(* REQUIRED BREAKS on a shift that also has RELOADS (round five, generator feature rbreload).  The clause "every ... reload ... stop
+   corresponds to a distinct one defined for that very vehicle shift" reads the reported LENGTH of a reload activity; an activity that
+   a required break interrupts is reported with the break inside.  For a tour whose shift defines required breaks the clause is
+   evaluated on the tour without its break activities and with the NET length (the part of the reported interval outside the
+   reported breaks) - the attribution ValidX uses for every activity of such a tour - iff the checker says so; `accounted6` replaces
+   AReload by this version on those tours and is accounted5 for a problem without required breaks *)
+Theorem C02_reloads_around_required_breaks_distinct_defined : forall X P t, reloads_ok_rb X P t = true <-> ReloadsDefinedRb X P t.
+Proof. exact reloads_ok_rb_iff. Qed.
+
+Theorem C02_reloads_around_required_breaks_checker_sound_complete : forall X P S,
+  reload_rb_viols X P S = [] <-> forall t, In t (sl_tours S) -> has_rb X t = true -> ReloadsDefinedRb X P t.
+Proof. exact reload_rb_viols_nil. Qed.
+
+Theorem C02_reloads_without_required_breaks_is_reloads_ok : forall P t, reloads_ok_rb X0 P t = reloads_ok P t.
+Proof. exact reloads_ok_rb_X0. Qed.
+
+Theorem C02_no_required_breaks_is_accounted5 : forall Y XS P S, accounted6 Y X0 XS P S = accounted5 Y X0 XS P S.
+Proof. exact accounted6_X0. Qed.
